@@ -312,26 +312,54 @@ func c13Codec(p *Prog, r *Report, cl *types.Named, recv *ssa.Function) {
 	table := p.Global("codecs", "CustomRawCodecsWithCompression")
 	fns := p.ScopedFuncs("proxy")
 	n := 0
-	for _, f := range []*types.Var{codecF, compF} {
-		for _, acc := range fieldAccesses(fns, f) {
-			if !acc.Write {
-				if acc.Kind == "addr-escapes" || acc.Kind == "addr-other" || acc.Kind == "addr-call" {
-					r.bad(rule, fmt.Sprintf("%s.%s@%s", cl.Obj().Name(), f.Name(), acc.Fn.Name()), p.Pos(acc.Instr.Pos()), "address of the field escapes (writes cannot be inventoried)")
-				}
-				continue
+	type wr struct {
+		f     *types.Var
+		instr ssa.Instruction
+		fn    *ssa.Function
+		base  ssa.Value
+		val   ssa.Value
+	}
+	var writes []wr
+	ccr := clientCodecRoles(p)
+	for _, w := range ccr.writes(p) {
+		writes = append(writes, wr{codecF, w.Instr, w.Fn, w.Base, w.Val})
+	}
+	for _, acc := range fieldAccesses(fns, compF) {
+		if !acc.Write {
+			if acc.Kind == "addr-escapes" || acc.Kind == "addr-other" || acc.Kind == "addr-call" {
+				r.bad(rule, fmt.Sprintf("%s.%s@%s", cl.Obj().Name(), compF.Name(), acc.Fn.Name()), p.Pos(acc.Instr.Pos()), "address of the field escapes (writes cannot be inventoried)")
 			}
+			continue
+		}
+		writes = append(writes, wr{compF, acc.Instr, acc.Fn, acc.Base, acc.Instr.(*ssa.Store).Val})
+	}
+	// the codec field itself is reached only through its accessors (or plain loads/stores)
+	for _, acc := range fieldAccesses(fns, codecF) {
+		if acc.Kind == "addr-escapes" || acc.Kind == "addr-other" {
+			r.bad(rule, fmt.Sprintf("%s.%s@%s", cl.Obj().Name(), codecF.Name(), acc.Fn.Name()), p.Pos(acc.Instr.Pos()), "address of the field escapes (writes cannot be inventoried)")
+		}
+		if acc.Kind == "addr-call" {
+			c, _ := acc.Instr.(*ssa.Call)
+			if c == nil || !(callIsMethod(c, "sync/atomic", "Value", "Load") || callIsMethod(c, "sync/atomic", "Value", "Store")) {
+				r.bad(rule, fmt.Sprintf("%s.%s@%s", cl.Obj().Name(), codecF.Name(), acc.Fn.Name()), p.Pos(acc.Instr.Pos()), "address of the field passed to something other than its atomic load/store")
+			}
+		}
+	}
+	for _, w := range writes {
+		f := w.f
+		{
 			n++
-			key := fmt.Sprintf("%s.%s@%s", cl.Obj().Name(), f.Name(), acc.Fn.Name())
-			if a, ok := acc.Base.(*ssa.Alloc); ok && a.Parent() == acc.Fn {
-				r.ok(rule, key, p.Pos(acc.Instr.Pos()), "construction of a new client")
+			key := fmt.Sprintf("%s.%s@%s", cl.Obj().Name(), f.Name(), w.fn.Name())
+			if a, ok := w.base.(*ssa.Alloc); ok && a.Parent() == w.fn {
+				r.ok(rule, key, p.Pos(w.instr.Pos()), "construction of a new client")
 				continue
 			}
-			st := acc.Instr.(*ssa.Store)
+			st := w.instr
 			var bad []string
-			if !onlyCalledFrom(p, acc.Fn, recv, 3) {
+			if !onlyCalledFrom(p, w.fn, recv, 3) {
 				bad = append(bad, "written outside the frame handler (and its private helpers)")
 			}
-			if len(acc.Fn.Params) == 0 || acc.Base != acc.Fn.Params[0] || recvNamed(acc.Fn) != cl {
+			if len(w.fn.Params) == 0 || w.base != ssa.Value(w.fn.Params[0]) || recvNamed(w.fn) != cl {
 				bad = append(bad, "written on an object other than the receiving connection")
 			}
 			// guarded by a successful table lookup
@@ -353,7 +381,7 @@ func c13Codec(p *Prog, r *Report, cl *types.Named, recv *ssa.Function) {
 				}
 				if f == codecF {
 					okSrc := false
-					for _, o := range origins(st.Val) {
+					for _, o := range origins(w.val) {
 						if ex, ok := o.(*ssa.Extract); ok && ex.Tuple == lookup && ex.Index == 0 {
 							okSrc = true
 						}
